@@ -3,21 +3,26 @@
 HARNESSES = {'c15_serial': {'src': ['harness/c15_serial.cpp']}}
 
 CHECKS = {'C15': {'level': 'fault_enumeration',
-         'engine': 'E2 mc',
+         'engine': 'E3 lattice',
          'technique': 'fault enumeration over a corpus of streams written by the real writers: every truncation '
                       'offset of every stream (crash points) and every single-byte corruption (3 patterns) of every '
-                      'tensor stream is fed to the real readers; exhaustive round trips of the corpus',
+                      'tensor stream (stand-alone and nested in weak learners / linear / boosting models) is fed to the '
+                      'real readers; exhaustive round trips of the corpus',
          'level_text': 'the corpus (tensors of 10 scalar types x rank 1..5 x every shape with dims 0..3, thorough: '
-                       '0..6 for rank <= 3; parameters/features of every kind; every factory object of '
+                       '0..6 for rank <= 3 and 0..4 for rank 4; parameters/features of every kind; every factory object of '
                        'solver/loss/splitter/tuner/lsearch0/lsearchk/wlearner/linear in default and modified '
-                       'configuration; all 8 weak learners fitted on 2 datasets; 4 linear and 2-3 gradient boosting '
-                       'models fitted on 20-24 samples) is enumerated completely: every strict prefix of every stream '
-                       'and every byte x {^0x01, ^0x80, ~} of every tensor stream. Nothing is claimed about other '
-                       'objects, multi-byte corruptions or corruptions of non-tensor streams',
+                       'configuration; all 8 weak learners fitted on 2 datasets of 40 samples; 4 (thorough: 8) linear '
+                       'models fitted on 24 samples and 3 gradient boosting models fitted on 40 samples) is enumerated completely: every strict prefix of every stream '
+                       'and every byte x {^0x01, ^0x80, ~} of every tensor stream, stand-alone or nested in a composite '
+                       'stream. Nothing is claimed about other '
+                       'objects, multi-byte corruptions or corruptions of non-tensor bytes. The fault space is the '
+                       'flat product object x offset (x pattern), enumerated with the E3 odometer; no choice-point '
+                       'search (E2) is involved',
          'level_note': 'trusted: std::streambuf over the byte range (libstdc++ 12), ASan/UBSan as the out-of-bounds '
                        'oracle of the truncate/corrupt stages, RLIMIT_AS as the allocation cap of the rel stages',
          'rule': 'fault enumeration: evaluations = reader runs (one per object in roundtrip, one per (object, prefix '
-                 'length k < len) in truncate*, one per (tensor, byte offset, pattern) in corrupt*); non-trivial = '
+                 'length k < len) in truncate*, one per (tensor or composite object, byte offset inside a tensor, '
+                 'pattern) in corrupt*); non-trivial = '
                  'prefixes that end strictly inside a nested object (parameter in a vector, feature, tensor, weak '
                  'learner inside a model; measured by locating the separately serialized sub-objects in the stream), '
                  'corruptions of dims/hash/payload bytes (not of the constant version/rank/sizeof fields), round '
@@ -25,7 +30,7 @@ CHECKS = {'C15': {'level': 'fault_enumeration',
          'assumptions': ['a reader "reports failure" when it throws any exception or leaves the stream with '
                          'failbit/badbit set; std::bad_alloc/std::length_error count as rejection',
                          'RLIMIT_AS cannot be combined with ASan (shadow memory): the asan stages cap the request '
-                         'size of the ASan allocator instead (max_allocation_size_mb=32 compiled into the harness, '
+                         'size of the ASan allocator instead (max_allocation_size_mb=8 compiled into the harness, '
                          'allocator_may_return_null=1): larger requests return nullptr => std::bad_alloc from the '
                          'tensor storage; the rel stages truncate-rlimit/corrupt-rlimit cap the address space at 4 GiB '
                          'with setrlimit',
